@@ -8,6 +8,7 @@ import time
 
 MAX_VIOLATIONS_KEPT = 40
 KNOWN_KEYS = set()             # keys of listed known findings of the property being run
+STOP_AFTER_CHUNKS = 4          # chunks stopped early after which the remaining chunks are skipped
 FAIL_FAST_AFTER = 400          # violating cases per chunk after which the chunk stops exploring
 
 
@@ -100,18 +101,31 @@ def _worker_init():
     signal.signal(signal.SIGINT, signal.SIG_IGN)
 
 
+_STOPPED = {"counter": None}    # shared counter of chunks stopped early (inherited through fork)
+
+
 class _Guarded:                                     # pylint: disable=too-few-public-methods
-    """Picklable wrapper: a chunk that hits the fail-fast limit returns what it has."""
+    """Picklable wrapper: a chunk that hits the fail-fast limit returns what it has, and once
+    a few chunks have done so the remaining chunks return at once (a shared counter inherited
+    through fork; the pool is never terminated - terminating a busy pool can deadlock)."""
 
     def __init__(self, func):
         self.func = func
 
     def __call__(self, chunk):
+        stopped = _STOPPED["counter"]
+        if stopped is not None and stopped.value >= STOP_AFTER_CHUNKS:
+            skipped = Part()
+            skipped.count("chunks_skipped_after_stop")
+            return skipped
         _GUARD["depth"] += 1
         try:
             return self.func(chunk)
         except EnoughViolations as stop:
             stop.part.count("chunks_stopped_early")
+            if stopped is not None:
+                with stopped.get_lock():
+                    stopped.value += 1
             return stop.part
         finally:
             _GUARD["depth"] -= 1
@@ -125,20 +139,16 @@ def fan_out(ctx, func, chunks):
     """
     total = Part()
     chunks = list(chunks)
+    mp_ctx = multiprocessing.get_context("fork")
+    _STOPPED["counter"] = mp_ctx.Value("i", 0)       # fresh for every exploration
     func = _Guarded(func)
     if ctx.jobs <= 1 or len(chunks) <= 1:
         for chunk in chunks:
             total.merge(func(chunk))
-            if total.counters.get("chunks_stopped_early"):
-                break
         return total
-    mp_ctx = multiprocessing.get_context("fork")
     with mp_ctx.Pool(min(ctx.jobs, len(chunks)), initializer=_worker_init) as pool:
         for part in pool.imap(func, chunks, chunksize=1):
             total.merge(part)
-            if total.counters.get("chunks_stopped_early", 0) >= 4:
-                pool.terminate()                    # broken tree: the verdict is settled
-                break
     return total
 
 
